@@ -1,19 +1,27 @@
 (* C30 — The reported result schema describes the returned rows.  Statement pins only.
-   schema_of = the column types the engine reports for a query (Model.v lists the typing rules and the
-   covered operators: all of Sql/Query.v's `query` except VALUES, all of `expr` except a bare NULL literal). *)
+   schema_of = the column types the engine reports for a query (Model.v lists the typing rules and the covered
+   operators: all of Sql/Query.v's `query` except VALUES, all of `expr` except a bare NULL literal).
+   has_ty mx: run-time typing of a value; with mx = true a VInt is accepted at a float type (the Int -> Float64
+   cast evaluate_case applies to integer branches of a mixed CASE), with mx = false it is not. *)
 From QV Require Import Sql.Query C30.Model C30.Proofs.
 
-(* expression typing is sound for the SQL semantics: a typed expression never yields VErr and yields a value
-   of its type (NULL inhabits every type); for the planner's typing after (true) and before (false) 4f06458 *)
-Theorem C30_tyof_sound : forall same_arm S env r,
-  row_has_types r env = true -> forall e t, tyof same_arm env e = Some t -> has_ty (eval S r e) t = true.
+(* expression typing is sound for the SQL semantics: a typed expression never yields VErr and yields a value of
+   its type; for both value disciplines and for the planner's arithmetic typing after / before 4f06458 *)
+Theorem C30_tyof_sound : forall mx same_arm S env r,
+  row_has_types mx r env = true -> forall e t, tyof same_arm mx env e = Some t -> has_ty mx (eval S r e) t = true.
 Proof. exact tyof_sound. Qed.
 
 (* type preservation: every row a well-typed query returns has the reported column count and types *)
 Theorem C30_rows_conform : forall dbs db q env,
-  db_conforms db dbs -> schema_of dbs q = Some env ->
-  forall r, In r (qeval sql_qsem db q) -> row_has_types r env = true.
+  db_conforms true db dbs -> schema_of dbs q = Some env ->
+  forall r, In r (qeval sql_qsem db q) -> row_has_types true r env = true.
 Proof. exact rows_conform. Qed.
+
+(* ... and strictly (no integer at a float type) when every CASE keeps to one class *)
+Theorem C30_rows_conform_strict : forall dbs db q env,
+  db_conforms false db dbs -> schema_strict dbs q = Some env ->
+  forall r, In r (qeval sql_qsem db q) -> row_has_types false r env = true.
+Proof. exact rows_conform_strict. Qed.
 
 Theorem C30_schema_width : forall dbs q env, schema_of dbs q = Some env -> length env = width q.
 Proof. exact schema_width_reported. Qed.
@@ -23,6 +31,19 @@ Theorem C30_i32_arith_regression :
   let q := QProject (QTable 0 1) [EArith AAdd (ECol 0) (ECol 0)] in
   schema_of [[TI32]] q = Some [TI32] /\ schema_before_4f06458 [[TI32]] q = Some [TI64].
 Proof. exact i32_arith_regression. Qed.
+
+(* regression (class case-float64-widening, closed by fix: b37af60): CASE is planned with the fold of its branch
+   types — Float64 as soon as a differing pair involves Float64, else the THEN's type *)
+Theorem C30_case_fold_regression :
+  let c := ECmp CGt (ECol 0) (ELit (VInt 0)) in
+  let q e := QProject (QTable 0 2) [e] in
+  schema_of [[TI64; TF32]] (q (ECase [(c, ECol 0)] (Some (ELit (VDbl (3 # 2)))))) = Some [TF64]
+  /\ schema_of [[TI64; TF32]] (q (ECase [(c, ECol 1)] (Some (ELit (VDbl (3 # 2)))))) = Some [TF64]
+  /\ schema_of [[TI64; TF32]] (q (ECase [(c, ELit (VDbl (3 # 2)))] (Some (ECol 0)))) = Some [TF64]
+  /\ schema_of [[TI32; TI64]] (q (ECase [(c, ECol 0)] (Some (ECol 1)))) = Some [TI32]
+  /\ schema_strict [[TI64; TF32]] (q (ECase [(c, ECol 0)] (Some (ELit (VDbl (3 # 2)))))) = None
+  /\ case_fold [TI64; TF64] = Some TF64 /\ case_fold [TI32; TF32; TF64] = Some TF64 /\ case_fold [TI32; TF32] = Some TI32.
+Proof. exact case_fold_regression. Qed.
 
 (* the planner's coerce_numeric_types on every pair of modelled numeric types *)
 Theorem C30_coerce_table :
@@ -42,17 +63,11 @@ Theorem C30_union_mixed_witness :
   /\ known_union_mixed [[TI64; TI32]] (QSetOp SUnion false (QProject (QTable 0 2) [ECol 1]) (QProject (QTable 0 2) [ECol 0])) = false.
 Proof. exact union_mixed_witness. Qed.
 
-(* class case-float64-widening (shape predicate): integer THEN, Float64 ELSE is in it; the reverse order is not *)
-Theorem C30_case_widen_witness :
-  let e := ECase [(ECmp CGt (ECol 0) (ELit (VInt 0)), ECol 0)] (Some (ELit (VDbl (3 # 2)))) in
-  case_fold [TI64; TF64] = Some TF64 /\ known_case_widen [[TI64]] (QProject (QTable 0 1) [e]) = true
-  /\ known_case_widen [[TI64]] (QProject (QTable 0 1) [ECase [(ECmp CGt (ECol 0) (ELit (VInt 0)), ELit (VDbl (3 # 2)))] (Some (ECol 0))]) = false.
-Proof. exact case_widen_witness. Qed.
-
 Print Assumptions C30_tyof_sound.
 Print Assumptions C30_rows_conform.
+Print Assumptions C30_rows_conform_strict.
 Print Assumptions C30_schema_width.
 Print Assumptions C30_i32_arith_regression.
+Print Assumptions C30_case_fold_regression.
 Print Assumptions C30_coerce_table.
 Print Assumptions C30_union_mixed_witness.
-Print Assumptions C30_case_widen_witness.
